@@ -214,6 +214,41 @@ def gen_requests(rng, n, threads=False):
     return reqs
 
 
+def extreme_geometry_requests(rng, quick):
+    """scaled sources at the edge of the 16.16 coordinate range: images close to 32768 pixels wide (or high) under
+       strong reductions and enlargements, partly covering the destination, for the format pairs that have scaled
+       fast paths and for one that has none - where a 32-bit intermediate of a special-cased routine can wrap while
+       the general path (64-bit) does not"""
+    reqs = []
+    pairs = [("a8r8g8b8", "a8r8g8b8"), ("r5g6b5", "r5g6b5"), ("a8r8g8b8", "r5g6b5"), ("x8r8g8b8", "a8r8g8b8"),
+             ("a8", "a8")]
+    widths = [32766, 32767, 30000, 16385] if not quick else [32766, 30000]
+    scales = [4 * FX1, 5000 * FX1, FX1 * 3 // 2, 32767 * FX1 // 40, FX1 // 2] if not quick else [4 * FX1, 5000 * FX1, FX1 // 2]
+    for (sfn, dfn) in pairs:
+        for sw in widths:
+            for sc in scales:
+                for sfilt in (3, 4):
+                    for srep in ((0, 2) if quick else (0, 1, 2, 3)):
+                        for op in (1, 3):
+                            dw = rng.randint(40, 90)
+                            # translations that leave padding on the left, on the right, or on both sides
+                            tx = rng.choice([0, -3 * sc, (sw - 5) * FX1 - (dw // 2) * sc, -2 * FX1])
+                            if abs(tx) >= 2 ** 31:
+                                tx = 0
+                            t = [sc, 0, 0, FX1, tx, 0]
+                            reqs.append(creq(op, F[sfn], sw, 2, srep, sfilt, t, 0, 1, 1, 0, 0, F[dfn], dw, 2,
+                                             0, 0, 0, 0, 0, 0, dw, 2, rng.randrange(1, 2 ** 31)))
+    # the same on the y axis (narrow, very tall sources)
+    for (sfn, dfn) in pairs[:3]:
+        for sh in ([32766] if quick else [32766, 30000]):
+            for sc in (4 * FX1, 5000 * FX1):
+                for sfilt in (3, 4):
+                    t = [FX1, 0, 0, sc, 0, rng.choice([0, -3 * sc if 3 * sc < 2 ** 31 else 0])]
+                    reqs.append(creq(1, F[sfn], 3, sh, rng.choice([0, 2]), sfilt, t, 0, 1, 1, 0, 0, F[dfn], 3, 30,
+                                     0, 0, 0, 0, 0, 0, 3, 30, rng.randrange(1, 2 ** 31)))
+    return reqs
+
+
 def table_directed_requests(rng, exe, wd, configs):
     """One group of requests per fast path table entry of the running library (all implementations, all
        configurations): the driver is run with an empty script to obtain the Tables dump, and for every entry with
@@ -401,6 +436,9 @@ def run_c02(args):
     sweep = fill_blt_sweep(rng, quick)
     chk.extra["fill_blt_sweep_requests"] = len(sweep)
     reqs += sweep
+    extreme = extreme_geometry_requests(rng, quick)
+    chk.extra["extreme_geometry_requests"] = len(extreme)
+    reqs += extreme
     script = os.path.join(wd, "reqs.script")
     open(script, "w").write("\n".join(reqs) + "\n")
     chk.sample({"request_script_lines": reqs[:3]})
